@@ -375,11 +375,15 @@ PROPS = {
                    "one registration object per recorded entry in order; the property _utility_registrations_cache returns an object bound to "
                    "the current registry and listing; the ==-searched _UnhashableComponentCounter get/set/del act on the first equal entry. "
                    "The literal event clause is PROVED outside the two recorded regions and fails unrestricted (two KNOWN-FINDINGs). The "
-                   "counter cache arithmetic (__cache_utility/__uncache_utility/_is_utility_subscribed), re-initialisation and "
-                   "rebuildUtilityRegistryFromLocalCache are checked bounded on random histories (<= 8 calls).",
+                   "(Re-)initialisation (Components.__init__, _init_registries, _init_registrations; __init__ is also the documented way to wipe a "
+                   "live object) is verified to leave four fresh empty listings, two fresh registries holding nothing and no volatile utility "
+                   "bookkeeping, to emit no event and to touch no older container. The counter cache arithmetic "
+                   "(__cache_utility/__uncache_utility/_is_utility_subscribed: dictionaries keyed by == of the components) and "
+                   "rebuildUtilityRegistryFromLocalCache are checked bounded on random histories (<= 8 calls) and exhaustive sequences after one "
+                   "component was registered under two names (incl. loss of the volatile bookkeeping).",
         level_note='underlying registry mutators by the abstract contracts of C09 (assumed here, bodies under contract there); counter cache '
                    'helpers assumed; helper inspectors (_getAdapterRequired ...) are oracles; event clause: two known findings',
-        explanation='mutators, listings and events proved against mirror/event contracts; counter cache, re-initialisation and rebuild bounded; two recorded deviations from the literal event clause',
+        explanation='mutators, listings, events and re-initialisation proved against mirror/event contracts; counter cache and rebuild bounded; two recorded deviations from the literal event clause',
     ),
     'C19': dict(
         title='super() proxies see only the remainder of the MRO',
